@@ -3,6 +3,7 @@ package c05
 import (
 	"bytes"
 	"fmt"
+	"math/rand"
 	"strings"
 	"sync"
 	"testing"
@@ -46,14 +47,17 @@ func TestC05(t *testing.T) {
 	cooked := []string{"rep", "respondent"}
 	rawp := []string{"xrep", "xrespondent"}
 	for i := 0; i < nseq; i++ {
-		cases = append(cases, mon.CaseSpec{Name: "seq", Spec: c05Spec{Proto: cooked[i%2], Mode: "seq", NCtx: 1 + rnd.Intn(6), NPipes: 1 + rnd.Intn(6), NOps: 20 + rnd.Intn(41), TTL: 1 + rnd.Intn(8)}})
+		cases = append(cases, mon.CaseSpec{Name: "seq", Spec: c05Spec{Proto: cooked[i%2], Mode: "seq", NCtx: 1 + rnd.Intn(6), NPipes: 1 + rnd.Intn(6), NOps: 20 + rnd.Intn(41), TTL: pickTTL(rnd, 1)}})
 	}
 	for i := 0; i < nconc; i++ {
-		cases = append(cases, mon.CaseSpec{Name: "conc", Spec: c05Spec{Proto: cooked[i%2], Mode: "conc", NCtx: 1 + rnd.Intn(6), NPipes: 1 + rnd.Intn(6), NOps: 20 + rnd.Intn(60), TTL: 1 + rnd.Intn(8)}})
+		cases = append(cases, mon.CaseSpec{Name: "conc", Spec: c05Spec{Proto: cooked[i%2], Mode: "conc", NCtx: 1 + rnd.Intn(6), NPipes: 1 + rnd.Intn(6), NOps: 20 + rnd.Intn(60), TTL: pickTTL(rnd, 1)}})
 	}
 	for i := 0; i < nraw; i++ {
 		// TTL >= 2 so that a depth-0 sentinel is within every receiver's hop limit
-		cases = append(cases, mon.CaseSpec{Name: "raw", Spec: c05Spec{Proto: rawp[i%2], Mode: "raw", NCtx: 0, NPipes: 1 + rnd.Intn(6), NOps: 2 + rnd.Intn(5), TTL: 2 + rnd.Intn(7)}})
+		cases = append(cases, mon.CaseSpec{Name: "raw", Spec: c05Spec{Proto: rawp[i%2], Mode: "raw", NCtx: 0, NPipes: 1 + rnd.Intn(6), NOps: 2 + rnd.Intn(5), TTL: pickTTL(rnd, 2)}})
+	}
+	for i := 0; i < nraw/4; i++ {
+		cases = append(cases, mon.CaseSpec{Name: "rawretry", Spec: c05Spec{Proto: rawp[i%2], Mode: "rawretry", TTL: pickTTL(rnd, 2)}})
 	}
 	r.Run(cases, func(c *mon.Case) {
 		sp := c.Spec.(c05Spec)
@@ -62,10 +66,21 @@ func TestC05(t *testing.T) {
 			c05Seq(c, sp)
 		case "conc":
 			c05Conc(c, sp)
+		case "rawretry":
+			c05RawRetry(c, sp)
 		default:
 			c05Raw(c, sp)
 		}
 	})
+}
+
+// pickTTL: mostly the small hop limits around the default, and in a quarter of the cases a
+// large one, so that routing headers far deeper than the default 8 words are exercised too.
+func pickTTL(rnd *rand.Rand, min int) int {
+	if rnd.Intn(4) == 0 {
+		return []int{9, 10, 12, 16, 33, 100, 255}[rnd.Intn(7)]
+	}
+	return min + rnd.Intn(9-min)
 }
 
 func errName(err error) string {
@@ -349,6 +364,29 @@ func c05Seq(c *mon.Case, sp c05Spec) {
 					s.note("a%d", p.n)
 				}
 			}
+		case x < 97:
+			// a context that has never received anything has no request to answer, whatever the
+			// socket's other contexts hold at the moment
+			cx, err := r.sock.OpenContext()
+			if err != nil {
+				c.Violate(sp.Proto+"/open-context-error", "OpenContext: %v", err)
+				break
+			}
+			k := mon.Go("fresh.Send", func() (interface{}, error) { return nil, cx.Send([]byte("from-a-context-without-request")) })
+			if c.AwaitOrViolate(sp.Proto+"/send-without-request-stuck", "Send on a fresh context returning", k.Done, mon.AwaitOpts{}) {
+				if _, e, _ := k.Result(); e != mangos.ErrProtoState {
+					pend := 0
+					for i := range s.st {
+						if s.st[i].pending != nil {
+							pend++
+						}
+					}
+					c.Violate(sp.Proto+"/fresh-context-send-accepted", "Send on a context that never received a request returned %v (want the protocol-state error); %d other contexts hold a pending request", e, pend)
+				}
+				c.Count("fresh_context_sends", 1)
+			}
+			cx.Close()
+			s.note("F")
 		default:
 			s.recv(rnd.Intn(sp.NCtx), time.Duration(4+rnd.Intn(8))*time.Millisecond)
 		}
